@@ -14,110 +14,7 @@
    The call counts of tick (Generate time: 0; per evaluation: equal with and without optimizer) are
    compared by the harness on the implementation itself. *)
 From P2 Require Import Base.Prelude Sem.Num Sem.Syntax Sem.Ops Sem.Lib Sem.Ref Sem.Gen Sem.Sim Sem.Opt
-                       Sem.OptCfg Sem.Obs Generated.ValueCfg Run.C01Run.
-
-(* ---------- structural equality of ASTs and values (boolean, used for counting only) ---------- *)
-
-Fixpoint names_eqb (a b : list name) : bool :=
-  match a, b with
-  | [], [] => true
-  | x :: a', y :: b' => str_eqb x y && names_eqb a' b'
-  | _, _ => false
-  end.
-
-Fixpoint ast_eqb (a b : ast) {struct a} : bool :=
-  match a, b with
-  | AConst v, AConst w => value_eqb v w
-  | AIdent x, AIdent y => str_eqb x y
-  | ALet x v1 b1, ALet y v2 b2 => str_eqb x y && ast_eqb v1 v2 && ast_eqb b1 b2
-  | AIf c1 t1 e1, AIf c2 t2 e2 => ast_eqb c1 c2 && ast_eqb t1 t2 && ast_eqb e1 e2
-  | ASwitch v1 cs1 d1, ASwitch v2 cs2 d2 =>
-      ast_eqb v1 v2 && ast_eqb d1 d2 &&
-      (fix go (l m : list (ast * ast)) : bool :=
-         match l, m with
-         | [], [] => true
-         | (c, r) :: l', (c', r') :: m' => ast_eqb c c' && ast_eqb r r' && go l' m'
-         | _, _ => false
-         end) cs1 cs2
-  | ATry t1 c1, ATry t2 c2 => ast_eqb t1 t2 && ast_eqb c1 c2
-  | AUnary o1 x1, AUnary o2 x2 => str_eqb o1 o2 && ast_eqb x1 x2
-  | AOp o1 x1 y1, AOp o2 x2 y2 => str_eqb o1 o2 && ast_eqb x1 x2 && ast_eqb y1 y2
-  | AClosure ps1 b1 o1 r1 t1, AClosure ps2 b2 o2 r2 t2 =>
-      names_eqb ps1 ps2 && ast_eqb b1 b2 && names_eqb o1 o2 && Bool.eqb r1 r2 && str_eqb t1 t2
-  | AList l1, AList l2 =>
-      (fix go (l m : list ast) : bool :=
-         match l, m with
-         | [], [] => true
-         | x :: l', y :: m' => ast_eqb x y && go l' m'
-         | _, _ => false
-         end) l1 l2
-  | AIndex l1 i1, AIndex l2 i2 => ast_eqb l1 l2 && ast_eqb i1 i2
-  | AMap m1, AMap m2 =>
-      (fix go (l m : list (name * ast)) : bool :=
-         match l, m with
-         | [], [] => true
-         | (k, x) :: l', (k', y) :: m' => str_eqb k k' && ast_eqb x y && go l' m'
-         | _, _ => false
-         end) m1 m2
-  | AMember m1 k1, AMember m2 k2 => ast_eqb m1 m2 && str_eqb k1 k2
-  | ACall f1 a1, ACall f2 a2 =>
-      ast_eqb f1 f2 &&
-      (fix go (l m : list ast) : bool :=
-         match l, m with
-         | [], [] => true
-         | x :: l', y :: m' => ast_eqb x y && go l' m'
-         | _, _ => false
-         end) a1 a2
-  | AStatic f1 a1, AStatic f2 a2 =>
-      str_eqb f1 f2 &&
-      (fix go (l m : list ast) : bool :=
-         match l, m with
-         | [], [] => true
-         | x :: l', y :: m' => ast_eqb x y && go l' m'
-         | _, _ => false
-         end) a1 a2
-  | AMethod r1 n1 a1, AMethod r2 n2 a2 =>
-      ast_eqb r1 r2 && str_eqb n1 n2 &&
-      (fix go (l m : list ast) : bool :=
-         match l, m with
-         | [], [] => true
-         | x :: l', y :: m' => ast_eqb x y && go l' m'
-         | _, _ => false
-         end) a1 a2
-  | _, _ => false
-  end
-with value_eqb (v w : value) {struct v} : bool :=
-  match v, w with
-  | VInt x, VInt y => Z.eqb x y
-  | VFloat x, VFloat y => fl_same x y
-  | VStr x, VStr y => str_eqb x y
-  | VBool x, VBool y => Bool.eqb x y
-  | VList l1, VList l2 =>
-      (fix go (l m : list value) : bool :=
-         match l, m with
-         | [], [] => true
-         | x :: l', y :: m' => value_eqb x y && go l' m'
-         | _, _ => false
-         end) l1 l2
-  | VMap m1, VMap m2 =>
-      (fix go (l m : list (str * value)) : bool :=
-         match l, m with
-         | [], [] => true
-         | (k, x) :: l', (k', y) :: m' => str_eqb k k' && value_eqb x y && go l' m'
-         | _, _ => false
-         end) m1 m2
-  | VClo ps1 b1 c1 s1, VClo ps2 b2 c2 s2 =>
-      names_eqb ps1 ps2 && ast_eqb b1 b2 && str_eqb s1 s2 &&
-      (fix go (l m : list (name * value)) : bool :=
-         match l, m with
-         | [], [] => true
-         | (k, x) :: l', (k', y) :: m' => str_eqb k k' && value_eqb x y && go l' m'
-         | _, _ => false
-         end) c1 c2
-  | VErrText None, VErrText None => true
-  | VErrText (Some s), VErrText (Some t) => str_eqb s t
-  | _, _ => false
-  end.
+                       Sem.OptCfg Sem.Obs Sem.AstEq Generated.ValueCfg Run.C01Run.
 
 (* some node of the tree (not looking into constants) satisfies p *)
 Fixpoint ast_exists (p : ast -> bool) (a : ast) {struct a} : bool :=
@@ -145,6 +42,43 @@ Fixpoint ast_exists (p : ast -> bool) (a : ast) {struct a} : bool :=
       ast_exists p r || (fix go (l : list ast) : bool := match l with [] => false | x :: l' => ast_exists p x || go l' end) args
   end.
 
+(* the same, also looking into constants: the body of a closure constant (the closure-literal rule folds a
+   closure whose body has been optimized), the elements of list and map constants *)
+Fixpoint ast_exists_deep (p : ast -> bool) (a : ast) {struct a} : bool :=
+  p a ||
+  match a with
+  | AConst v => val_exists_deep p v
+  | AIdent _ => false
+  | ALet _ v b => ast_exists_deep p v || ast_exists_deep p b
+  | AIf c t e => ast_exists_deep p c || ast_exists_deep p t || ast_exists_deep p e
+  | ASwitch v cases d =>
+      ast_exists_deep p v || ast_exists_deep p d ||
+      (fix go (l : list (ast * ast)) : bool :=
+         match l with [] => false | (c, r) :: l' => ast_exists_deep p c || ast_exists_deep p r || go l' end) cases
+  | ATry t c => ast_exists_deep p t || ast_exists_deep p c
+  | AUnary _ x => ast_exists_deep p x
+  | AOp _ x y => ast_exists_deep p x || ast_exists_deep p y
+  | AClosure _ body _ _ _ => ast_exists_deep p body
+  | AList l => (fix go (l : list ast) : bool := match l with [] => false | x :: l' => ast_exists_deep p x || go l' end) l
+  | AIndex l i => ast_exists_deep p l || ast_exists_deep p i
+  | AMap m => (fix go (l : list (name * ast)) : bool := match l with [] => false | (_, x) :: l' => ast_exists_deep p x || go l' end) m
+  | AMember m _ => ast_exists_deep p m
+  | ACall f args =>
+      ast_exists_deep p f || (fix go (l : list ast) : bool := match l with [] => false | x :: l' => ast_exists_deep p x || go l' end) args
+  | AStatic _ args => (fix go (l : list ast) : bool := match l with [] => false | x :: l' => ast_exists_deep p x || go l' end) args
+  | AMethod r _ args =>
+      ast_exists_deep p r || (fix go (l : list ast) : bool := match l with [] => false | x :: l' => ast_exists_deep p x || go l' end) args
+  end
+with val_exists_deep (p : ast -> bool) (v : value) {struct v} : bool :=
+  match v with
+  | VList l => (fix go (l : list value) : bool := match l with [] => false | x :: l' => val_exists_deep p x || go l' end) l
+  | VMap m => (fix go (l : list (str * value)) : bool := match l with [] => false | (_, x) :: l' => val_exists_deep p x || go l' end) m
+  | VClo _ body cap _ =>
+      ast_exists_deep p body ||
+      (fix go (l : list (name * value)) : bool := match l with [] => false | (_, x) :: l' => val_exists_deep p x || go l' end) cap
+  | _ => false
+  end.
+
 Definition is_ident (a : ast) : bool := match a with AIdent _ => true | _ => false end.
 
 (* ---------- the configuration of the harness's generator ---------- *)
@@ -161,8 +95,16 @@ Definition c02_flags : cfgflags :=
 
 Definition c02_fuel : nat := 400.
 
-Definition c02_case := c01_case.
-Definition c02_id (c : c02_case) : N := c01_id c.
+(* the REAL optimized AST as the harness dumped it (harness/c02.go c02DumpOn), or why it cannot be
+   compared: 0 = no AST (parse error), 1 = parse error with the optimizer only, 2 = a closure constant
+   that generated code computed at Generate time (opaque Go code), 3 = a constant list that cannot be
+   forced, 4 = panic in the parser, 5 = constant of a type outside Sem/Syntax.v *)
+Inductive real_opt :=
+| RAst (b : ast)
+| RNotComparable (reason : N).
+
+Definition c02_case := (c01_case * real_opt)%type.
+Definition c02_id (c : c02_case) : N := c01_id (fst c).
 
 (* the AST the parser returns WITH the optimizer, according to the model *)
 Definition c02_optimized (a : ast) : ast := optimize c02_flags value_methods c02_fuel a.
@@ -170,13 +112,65 @@ Definition c02_optimized (a : ast) : ast := optimize c02_flags value_methods c02
 (* can the optimizer model follow the implementation on this tree? *)
 Definition c02_followable (a' : ast) : bool := negb (ast_exists node_unmodelled a').
 
-(* model (optimizer + generator) = implementation with the optimizer, incl. WHEN an error is reported *)
-Definition c02_im (c : c02_case) : bool :=
-  let '(_, _, A, names, (lazy, excl), tuples) := c in
-  match A with
+(* a node the model left alone because ITS evaluation at Generate time is undecided in the model (out of
+   fuel, or outside the exact fragment: an inexact float result, an unmodelled corner of a built-in) while
+   the implementation, which has neither limit, may have folded it.  After the optimizer model has run, a
+   node whose operands are all constants and whose rule is enabled survives only when the computation
+   failed (error: the implementation leaves it, too) or was undecided (this test). *)
+Definition undecided {A} (r : res A) : bool := match r with OOF | Unsup => true | _ => false end.
+
+Definition node_undecided (a : ast) : bool :=
+  match a with
+  | AOp op (AConst x) (AConst y) => undecided (calc op x y)
+  | AUnary op (AConst x) => undecided (ucalc op x)
+  | AIndex (AConst l) (AConst i) => undecided (access_list l i)
+  | AMember (AConst m) k => undecided (access_map m k)
+  | AStatic f args =>
+      match all_const args with Some cs => undecided (run_static f cs) | None => false end
+  | ACall (AConst cv) args =>
+      match all_const args with
+      | Some cs => undecided (gapp value_methods c02_fuel cv cs)
+      | None => false
+      end
+  | AMethod (AConst rv) m args =>
+      match all_const args with
+      | Some cs => undecided (run_method (gapp value_methods c02_fuel) rv m cs)
+      | None => false
+      end
+  | _ => false
+  end.
+
+(* ---------- the AST tie: Opt.optimize on the dumped unoptimized AST = the dumped optimized AST ----------
+
+   0 = equal (ast_eqb: Leibniz equality, Sem/AstEqProofs.v), 1 = DIFFERS (the optimizer model is not the
+   optimizer: counted as a disagreement of model and implementation), 2 = not comparable: the harness could
+   not print the real tree (reason in the case), 3 = not comparable: the model cannot follow (a built-in
+   outside the modelled pool applied to constants), 4 = not comparable: a fold whose computation the model
+   cannot decide (fuel / inexact float) is left in the model's tree, 5 = no AST *)
+Definition tie_class_of (oa' : option ast) (R : real_opt) : N :=
+  match oa', R with
+  | None, _ => 5
+  | Some _, RNotComparable _ => 2
+  | Some a', RAst b =>
+      if ast_eqb a' b then 0
+      else if ast_exists_deep node_unmodelled a' then 3
+      else if ast_exists_deep node_undecided a' then 4
+      else 1
+  end%N.
+
+Definition c02_model_tree (c : c02_case) : option ast :=
+  let '((_, _, A, _, _, _), _) := c in
+  match A with Some a => Some (c02_optimized a) | None => None end.
+
+Definition c02_tie_class (c : c02_case) : N := tie_class_of (c02_model_tree c) (snd c).
+
+(* model (optimizer + generator) = implementation with the optimizer, incl. WHEN an error is reported;
+   oa' is the model-optimized tree (computed once per case) *)
+Definition c02_im_outcome (c : c01_case) (oa' : option ast) : bool :=
+  let '(_, _, _, names, (lazy, excl), tuples) := c in
+  match oa' with
   | None => forallb (fun t : c01_tuple => let '(_, _, ion) := t in is_generr ion) tuples
-  | Some a =>
-      let a' := c02_optimized a in
+  | Some a' =>
       if c02_followable a' then
         let acc := gen_check (S (ast_size a')) (map Some names) [] a' in
         forallb (fun t : c01_tuple =>
@@ -190,14 +184,20 @@ Definition c02_im (c : c02_case) : bool :=
       else true
   end.
 
+(* the model of the implementation is the implementation: the outcomes of the model-optimized program AND
+   the optimized tree itself, node by node (a tie that DIFFERS is a disagreement) *)
+Definition c02_im (c : c02_case) : bool :=
+  let oa' := c02_model_tree c in
+  c02_im_outcome (fst c) oa' && negb (N.eqb (tie_class_of oa' (snd c)) 1).
+
 (* the implementation satisfies the specification side: reference outcome = outcome without optimizer
    = outcome with optimizer *)
-Definition c02_is (c : c02_case) : bool := c01_is c.
+Definition c02_is (c : c02_case) : bool := c01_is (fst c).
 
 (* ---------- counts for the evidence ---------- *)
 
 Definition c02_m_verdicts (c : c02_case) : list verdict :=
-  let '(_, _, A, names, (lazy, _), tuples) := c in
+  let '((_, _, A, names, (lazy, _), tuples), _) := c in
   match A with
   | None => []
   | Some a =>
@@ -211,7 +211,7 @@ Definition c02_m_verdicts (c : c02_case) : list verdict :=
 (* 1 = the model's optimizer rewrote the program and a variable survives (non-trivial),
    2 = rewrote it to a variable-free tree, 0 = left it unchanged / no AST *)
 Definition c02_rewrite_class (c : c02_case) : N :=
-  let '(_, _, A, _, _, _) := c in
+  let '((_, _, A, _, _, _), _) := c in
   match A with
   | None => 0
   | Some a => let a' := c02_optimized a in
@@ -221,7 +221,7 @@ Definition c02_rewrite_class (c : c02_case) : N :=
 (* the hypothesis of theorem C02_optimize_sound_cfg on the program holds for the dumped AST: side_ok
    (first-order constants; a closure literal's own name is not among its OuterIdents) *)
 Definition c02_theorem_applies (c : c02_case) : bool :=
-  let '(_, _, A, _, _, _) := c in
+  let '((_, _, A, _, _, _), _) := c in
   match A with
   | None => false
   | Some a => side_ok a
@@ -231,7 +231,7 @@ Definition c02_theorem_applies (c : c02_case) : bool :=
    with the strict one on this program (no computed constant containing a closure is kept).  Counted
    only to show what the general theorem gained. *)
 Definition c02_strict_coincides (c : c02_case) : bool :=
-  let '(_, _, A, _, _, _) := c in
+  let '((_, _, A, _, _, _), _) := c in
   match A with
   | None => false
   | Some a =>
@@ -241,28 +241,48 @@ Definition c02_strict_coincides (c : c02_case) : bool :=
   end.
 
 Definition c02_unfollowable (c : c02_case) : bool :=
-  let '(_, _, A, _, _, _) := c in
+  let '((_, _, A, _, _, _), _) := c in
   match A with None => false | Some a => negb (c02_followable (c02_optimized a)) end.
+
+(* the REAL optimizer rewrote the program: the dumped optimized tree is not the dumped unoptimized one *)
+Definition c02_real_rewrote (c : c02_case) : bool :=
+  let '((_, _, A, _, _, _), R) := c in
+  match A, R with
+  | Some a, RAst b => negb (ast_eqb a b)
+  | _, _ => false
+  end.
 
 (* [M compared; M unsupported; M out of fuel; M laziness; cases the optimizer model cannot follow;
     S compared (both optimizer settings agree with the reference); S unsupported; S out of fuel; S laziness;
     S excluded tuples (redeclaration); cases rewritten with a surviving variable; cases rewritten to a
     variable-free tree; cases inside the hypotheses of C02_optimize_sound_cfg (side_ok); cases that also
-    satisfied the side condition of the previous theorem (strict = non-strict optimizer)] *)
+    satisfied the side condition of the previous theorem (strict = non-strict optimizer); AST tie: equal;
+    differs; not comparable (dump); not comparable (unmodelled built-in); not comparable (fold undecided in the
+    model); programs the REAL optimizer rewrote (among the dumped ones); of these with the tie equal; of these
+    also inside side_ok, i.e. covered by C02_tied_ast_sound] *)
 Definition c02_stats (cases : list c02_case) : list N :=
   let m := flat_map c02_m_verdicts cases in
-  let s := c01_stats cases in
+  let s := c01_stats (map fst cases) in
+  let tie := map (fun c => (c02_tie_class c, c02_real_rewrote c, c02_theorem_applies c)) cases in
   [ count is_agree m; count is_unsup m; count is_oof m; count is_lazy m;
     count c02_unfollowable cases;
     nth 4 s 0%N; nth 5 s 0%N; nth 6 s 0%N; nth 7 s 0%N; nth 8 s 0%N;
     count (fun c => N.eqb (c02_rewrite_class c) 1) cases;
     count (fun c => N.eqb (c02_rewrite_class c) 2) cases;
     count c02_theorem_applies cases;
-    count c02_strict_coincides cases ].
+    count c02_strict_coincides cases;
+    count (fun f : N * bool * bool => N.eqb (fst (fst f)) 0) tie;
+    count (fun f : N * bool * bool => N.eqb (fst (fst f)) 1) tie;
+    count (fun f : N * bool * bool => N.eqb (fst (fst f)) 2) tie;
+    count (fun f : N * bool * bool => N.eqb (fst (fst f)) 3) tie;
+    count (fun f : N * bool * bool => N.eqb (fst (fst f)) 4) tie;
+    count (fun f : N * bool * bool => snd (fst f)) tie;
+    count (fun f : N * bool * bool => snd (fst f) && N.eqb (fst (fst f)) 0) tie;
+    count (fun f : N * bool * bool => snd (fst f) && N.eqb (fst (fst f)) 0 && snd f) tie ].
 
 (* for replays: specification outcome and the outcome of the optimized program in the model *)
 Definition c02_explain (c : c02_case) : list (explained * explained) :=
-  let '(_, T, A, names, _, tuples) := c in
+  let '((_, T, A, names, _, tuples), _) := c in
   map (fun t : c01_tuple =>
          let '(args, _, _) := t in
          (explain (spec_out T names args),
